@@ -26,7 +26,16 @@ def c07(res):
     worker_families(res, ["MC_SendCoreQuick", "MC_RecvCoreQuick"], ["MC_SendCoreFull", "MC_RecvCoreFull"])
 
 
-CHECKS = {"C01": c01, "C02": c02, "C07": c07}
+def c04(res):
+    worker_families(res, ["MC_SendCoreQuick", "MC_RecvCoreQuick"], ["MC_SendCoreFull", "MC_RecvCoreFull"])
+
+
+def c08(res):
+    worker_families(res, ["MC_SendCoreQuick", "MC_RecvCoreQuick", "MC_SendBigWShort", "MC_RecvBigW"],
+                    ["MC_SendCoreFull", "MC_RecvCoreFull", "MC_SendBigWShort", "MC_RecvBigW", "MC_SendBigWFull"])
+
+
+CHECKS = {"C01": c01, "C02": c02, "C04": c04, "C07": c07, "C08": c08}
 
 
 def setup():
